@@ -314,6 +314,8 @@ type opResult struct {
 	err   error
 	panic string
 	done  bool
+	// jobMissing: the periodic job was no longer scheduled when the harness fired it
+	jobMissing bool
 }
 
 type violation struct {
@@ -534,7 +536,7 @@ func (r *runner) doOp(op *Op, res *opResult) {
 	key := phase0.BLSPubKey(key48(v.PubKey))
 	switch op.Kind {
 	case "refresh":
-		r.sched.Fire(refreshJob)
+		res.jobMissing = !r.sched.Fire(refreshJob)
 	case "lookup":
 		var acct e2wtypes.Account
 		if !op.NilAccount && !v.NoAccount {
@@ -546,7 +548,7 @@ func (r *runner) doOp(op *Op, res *opResult) {
 	case "builderbid":
 		_, res.err = r.svc.BuilderBid(r.ctx, phase0.Slot(op.Slot), parentHashOf(op.Validator), key)
 	case "registration":
-		r.sched.Fire(registrationJob)
+		res.jobMissing = !r.sched.Fire(registrationJob)
 	case "submit-registrations":
 		accts, _ := r.w.accounts()
 		res.err = r.svc.SubmitValidatorRegistrations(r.ctx, accts)
@@ -598,6 +600,54 @@ func (r *runner) await(done <-chan int, want int, duringFetch bool, isRefresh fu
 		}
 	}
 	return got, "", ""
+}
+
+// jobDropped says whether the scheduler dropped the named job because its
+// scheduling context had ended.
+func (r *runner) jobDropped(name string) bool {
+	for _, e := range r.sched.LogCopy() {
+		if e.Op == "dropped-parent-context-done" && e.Name == name {
+			return true
+		}
+	}
+	return false
+}
+
+// demonstrateNoRefresh puts a new valid document at the source, fires every
+// job that is still scheduled and looks a validator up.
+func (r *runner) demonstrateNoRefresh() string {
+	fee := hexOf(0x78, 20)
+	r.w.mu.Lock()
+	r.w.accountsMode, r.w.fetchErr = "ok", nil
+	r.w.fetchBody = Render(&Doc{Version: 2, V2: &V2{Fields: Fields{Fee: fee}}})
+	r.w.mu.Unlock()
+	done := make(chan string, 1)
+	go func() {
+		defer func() {
+			if p := recover(); p != nil {
+				done <- fmt.Sprintf("; (demonstration panicked: %v)", p)
+			}
+		}()
+		for _, j := range r.sched.Jobs() {
+			r.sched.Fire(j.Name)
+		}
+		v := r.validator(0)
+		cfg, err := r.svc.ProposerConfig(r.ctx, accountOf(v), phase0.BLSPubKey(key48(v.PubKey)))
+		switch {
+		case err != nil:
+			done <- fmt.Sprintf("; with a new valid document (fee recipient %s) at the source and every remaining job fired, the lookup fails: %v", fee, err)
+		case [20]byte(cfg.FeeRecipient) != addr20(fee):
+			done <- fmt.Sprintf("; with a new valid document (fee recipient %s) at the source and every remaining job fired, the lookup still answers %s", fee, show(cfg))
+		default:
+			done <- ""
+		}
+	}()
+	select {
+	case s := <-done:
+		return s
+	case <-time.After(10 * time.Second):
+		return ""
+	}
 }
 
 // checkLocks tries every lock of the service at quiescence.
@@ -888,8 +938,28 @@ func runCase(c *Case, known func(string) bool) (viols []violation, labels map[st
 	if len(r.locks) == 0 || r.sem == nil {
 		return nil, r.labels, false, "no lock fields found in the service by reflection"
 	}
-	if r.sched.Get(refreshJob) == nil || r.sched.Get(registrationJob) == nil {
-		return nil, r.labels, false, "the service did not schedule its periodic jobs under the expected names"
+	// New has returned and its context is alive: the periodic jobs must be in place.
+	// A job the scheduler dropped because vouch scheduled it under a context that
+	// vouch itself has ended is a violation (no refresh / registration round will
+	// ever run again); a job that was never scheduled under the expected name is a
+	// problem of the harness.
+	gone := false
+	for _, j := range []struct{ name, what string }{{refreshJob, "refresh"}, {registrationJob, "registration"}} {
+		if r.sched.Get(j.name) != nil {
+			continue
+		}
+		if !r.jobDropped(j.name) {
+			return nil, r.labels, false, "the service did not schedule its periodic jobs under the expected names"
+		}
+		gone = true
+		detail := ""
+		if j.what == "refresh" {
+			detail = r.demonstrateNoRefresh()
+		}
+		r.violate(j.what+"-job-cancelled-at-startup", "after New returned (its context alive) the periodic job %q is no longer scheduled: it was scheduled with a context that New itself ended, so the scheduler dropped it%s", j.name, detail)
+	}
+	if gone {
+		return r.viols, r.labels, false, ""
 	}
 	// New starts the first registration round on a goroutine of its own: let it finish.
 	deadline := time.Now().Add(watchdog)
